@@ -8,7 +8,7 @@
      feasible c n W k S  = forall j<n, S j -> k <= din c n W S j /\ 0 < din c n W S j
      card n A            = number of j<n with A j *)
 From Coq Require Import QArith List Arith Bool ZArith Lia.
-From BCT Require Import Base.Mat Base.SumQ Base.ListX Model.Core Proofs.Core.
+From BCT Require Import Base.Mat Base.SumQ Base.ListX Model.Core Proofs.Core Proofs.CoreFull.
 Import ListNotations.
 Open Scope Q_scope.
 
@@ -136,6 +136,137 @@ Theorem C15_coreness_bd_truncated_refuted :
     coreb deg_dir n W (qn k') j = true /\ (cor j < k')%nat.
 Proof. exact kcoreness_bd_truncated_refuted. Qed.
 
+(* ================= the routines as called: `peel` argument, both return shapes, default path ================= *)
+(* peel_py = the loop with `if peel:` around the two appends and the two `return` statements (Model/Core.v).
+   Whatever the flag: same matrix, same kn; peelorder/peellevel are returned only under the flag. *)
+Theorem C15_peel_flag : forall dg n W k b,
+  peel_py dg n W k b =
+  match peel dg n W k with
+  | None => None
+  | Some r => Some (pr_M r, kn_of n (pr_deg r), if b then Some (pr_order r, pr_level r) else None)
+  end.
+Proof. exact peel_py_spec. Qed.
+
+(* kcoreness_centrality_* call kcore_b?(CIJ, k) with the default peel=False and unpack the 2-tuple *)
+Theorem C15_kcoreness_default_path : forall n W,
+  kcoreness_centrality_bu_py n W = kcoreness_centrality_bu n W /\
+  kcoreness_centrality_bd_py n W = kcoreness_centrality_bd n W.
+Proof. intros n W. exact (conj (kcoreness_bu_py_eq n W) (kcoreness_bd_py_eq n W)). Qed.
+
+(* ================= the anchor mechanism: what one round removes ================= *)
+(* violators c n W k A = the nodes j < n with 0 < (degree of j inside A) < k, ascending *)
+Theorem C15_violators_unfold : forall c n W k A,
+  violators c n W k A = filter (fun j => qltb (din c n W A j) k && qltb 0 (din c n W A j)) (seq 0 n).
+Proof. intros. reflexivity. Qed.
+
+Theorem C15_rounds_spec_unfold : forall c n W k r, rounds_spec c n W k r <->
+  ((forall t, (t < length (pr_order r))%nat ->
+      nth t (pr_order r) [] = violators c n W k (alive (firstn t (pr_order r)))) /\
+   violators c n W k (alive (pr_order r)) = []).
+Proof. intros. reflexivity. Qed.
+
+(* round t+1 zeroes EXACTLY the nodes with 0 < deg < k in the sub-network left by rounds 1..t; the loop stops exactly
+   when there is none. For any pair-contribution degree, any W (no hypothesis), any k. *)
+Theorem C15_peel_round_is_violators :
+  forall (c : Q -> Q -> Q) (dg : nat -> mat Q -> vec Q),
+  (forall a a' b b', a == a' -> b == b' -> c a b == c a' b') -> c 0 0 == 0 ->
+  (forall n M j, dg n M j == dgc c n M j) ->
+  forall n W k r, peel dg n W k = Some r -> rounds_spec c n W k r.
+Proof. intros c dg Hp H0 Hs n W k r. exact (peel_round_is_violators c Hp H0 dg Hs n W k r). Qed.
+
+(* ================= nestedness and peel order, per routine (closed statements) ================= *)
+Theorem C15_nested_spec_unfold : forall n r r', nested_spec n r r' <->
+  ((forall j, (j < n)%nat -> core r' j = true -> core r j = true) /\
+   (kn_of n (pr_deg r') <= kn_of n (pr_deg r))%nat /\
+   (forall i j, (i < n)%nat -> (j < n)%nat -> pr_M r' i j == restrictA (core r') (pr_M r) i j)).
+Proof. intros. reflexivity. Qed.
+
+(* k <= k': the k'-core is inside the k-core, is not larger, and its matrix is the k-core matrix restricted to it *)
+Theorem C15_kcore_bu_nested : forall n W k k' r r', symmetric n W -> k <= k' ->
+  kcore_bu n W k = Some r -> kcore_bu n W k' = Some r' -> nested_spec n r r'.
+Proof. exact kcore_bu_nested. Qed.
+Theorem C15_kcore_bd_nested : forall n W k k' r r', k <= k' ->
+  kcore_bd n W k = Some r -> kcore_bd n W k' = Some r' -> nested_spec n r r'.
+Proof. exact kcore_bd_nested. Qed.
+Theorem C15_score_wu_nested : forall n W s s' r r', symmetric n W -> nonneg n W -> s <= s' ->
+  score_wu n W s = Some r -> score_wu n W s' = Some r' -> nested_spec n r r'.
+Proof. exact score_wu_nested. Qed.
+
+(* every node is exactly one of: listed (NoDup: in exactly one round, at its round number) | in the core |
+   neither — and then it has no link left to any unlisted node (its degree fell to 0; the code does not list it) *)
+Theorem C15_peel_once_spec_unfold : forall c n W r, peel_once_spec c n W r <->
+  (NoDup (concat (pr_order r)) /\
+   (forall x, In x (concat (pr_order r)) -> (x < n)%nat /\ core r x = false) /\
+   pr_level r = levels_from 0 (pr_order r) /\ pr_iter r = length (pr_order r) /\
+   Forall (fun ff => ff <> []) (pr_order r) /\
+   (forall j, (j < n)%nat ->
+      (In j (concat (pr_order r)) /\ core r j = false) \/
+      (~ In j (concat (pr_order r)) /\ core r j = true) \/
+      (~ In j (concat (pr_order r)) /\ core r j = false /\ din c n W (alive (pr_order r)) j == 0))).
+Proof. intros. reflexivity. Qed.
+
+Theorem C15_kcore_bu_peel : forall n W k r, kcore_bu n W k = Some r ->
+  peel_once_spec c_bu n W r /\ rounds_spec c_bu n W k r.
+Proof. exact kcore_bu_peel. Qed.
+Theorem C15_kcore_bd_peel : forall n W k r, kcore_bd n W k = Some r ->
+  peel_once_spec c_bd n W r /\ rounds_spec c_bd n W k r.
+Proof. exact kcore_bd_peel. Qed.
+(* score_wu returns no order: this is about the rounds of its loop *)
+Theorem C15_score_wu_peel : forall n W s r, nonneg n W -> score_wu n W s = Some r ->
+  peel_once_spec c_wu n W r /\ rounds_spec c_wu n W s r.
+Proof. exact score_wu_peel. Qed.
+
+(* one statement per routine AS CALLED (ret_of n r b = (pr_M r, kn, if b then Some (peelorder, peellevel) else None)) *)
+Theorem C15_kcore_bu_as_called : forall n W k b, symmetric n W ->
+  exists r, kcore_bu_py n W k b = Some (ret_of n r b) /\
+    core_spec c_bu n W k r /\ peel_once_spec c_bu n W r /\ rounds_spec c_bu n W k r.
+Proof. exact kcore_bu_py_correct. Qed.
+Theorem C15_kcore_bd_as_called : forall n W k b,
+  exists r, kcore_bd_py n W k b = Some (ret_of n r b) /\
+    core_spec c_bd n W k r /\ peel_once_spec c_bd n W r /\ rounds_spec c_bd n W k r.
+Proof. exact kcore_bd_py_correct. Qed.
+Theorem C15_score_wu_as_called : forall n W s, symmetric n W -> nonneg n W ->
+  exists r, score_wu_py n W s = Some (ret_of n r false) /\
+    core_spec c_wu n W s r /\ rounds_spec c_wu n W s r.
+Proof. exact score_wu_py_correct. Qed.
+
+(* ================= kcoreness_centrality_bu: one statement about the routine on its real input ================= *)
+(* coreness j = max { k >= 1 : j in the k-core } (0 if in none) for EVERY k (no bound), kn[k] = size of the k-core
+   (kn[0] = number of non-isolated nodes: the k = 0 quirk above) *)
+Theorem C15_coreness_full_unfold : forall dg n W cor kn, coreness_full dg n W cor kn <->
+  (length kn = n /\
+   (forall k', (k' < n)%nat -> nth k' kn 0%nat = card n (coreb dg n W (qn k'))) /\
+   (forall j, (j < n)%nat -> forall k', (1 <= k')%nat -> (coreb dg n W (qn k') j = true <-> (k' <= cor j)%nat))).
+Proof. intros. reflexivity. Qed.
+
+(* W symmetric, entries >= 0 (positive weights are binarised by the routine), no self-loops; about W itself *)
+Theorem C15_kcoreness_bu_full : forall n W, symmetric n W -> nonneg n W -> (forall i, (i < n)%nat -> W i i == 0) ->
+  exists cor kn, kcoreness_centrality_bu n W = Some (cor, kn) /\ coreness_full deg_und n W cor kn.
+Proof. exact kcoreness_bu_full. Qed.
+
+(* asymmetric input, und_of W i j = [W i j + W j i > 0]: if SOME pair has W[i,j] + W[j,i] > 1 (a reciprocal pair of a
+   binary digraph) the routine returns the coreness of the corresponding undirected network. No hypothesis on symmetry/sign. *)
+Theorem C15_kcoreness_bu_symmetrises : forall n W,
+  (exists i j, (i < n)%nat /\ (j < n)%nat /\ 1 < W i j + W j i) -> (forall i, (i < n)%nat -> W i i == 0) ->
+  exists cor kn, kcoreness_centrality_bu n W = Some (cor, kn) /\ coreness_full deg_und n (und_of W) cor kn.
+Proof. exact kcoreness_bu_symmetrises. Qed.
+
+(* what the source comment promises for every directed input ("if not [undirected], compute coreness on the
+   corresponding undirected network") is FALSE of the faithful model when no pair is reciprocal: `np.any(CIJund > 1)`
+   does not fire and kcore_bu runs on in-degrees. Single arc 0 -> 1: node 0 is in the 1-core of the undirected network,
+   coreness 0 is reported. Directed input is outside the domain of C15 for this routine (binary UNDIRECTED graphs):
+   recorded as an observation in the manifest, not as a finding. *)
+Definition coreness_bu_directed_statement : Prop :=
+  forall n W cor kn, (forall a b, (a < n)%nat -> (b < n)%nat -> W a b == 0 \/ W a b == 1) ->
+    (forall i, (i < n)%nat -> W i i == 0) ->
+    kcoreness_centrality_bu n W = Some (cor, kn) -> coreness_full deg_und n (und_of W) cor kn.
+Theorem C15_kcoreness_bu_single_arc_refuted :
+  exists n W cor kn j,
+    (forall a b, (a < n)%nat -> (b < n)%nat -> W a b == 0 \/ W a b == 1) /\ (forall i, (i < n)%nat -> W i i == 0) /\
+    kcoreness_centrality_bu n W = Some (cor, kn) /\ (j < n)%nat /\
+    coreb deg_und n (und_of W) (qn 1) j = true /\ cor j = 0%nat.
+Proof. exact kcoreness_bu_single_arc_refuted. Qed.
+
 (* non-vacuity: a triangle with a pendant path; the 2-core is the triangle, found after two rounds *)
 Example C15_nonvacuous :
   let W := of_rows 0 [[0;1;1;0;0]; [1;0;1;0;0]; [1;1;0;1;0]; [0;0;1;0;1]; [0;0;0;1;0]]%list in
@@ -148,6 +279,38 @@ Proof.
     destruct i as [|[|[|[|[|i]]]]]; [| | | | |lia]; (destruct j as [|[|[|[|[|j]]]]]; [| | | | |lia]); reflexivity.
   - eexists. split; [vm_compute; reflexivity|]. vm_compute. repeat split; reflexivity.
 Qed.
+
+(* non-vacuity of the new families on the same graph (weights 3 and 1/2 on two links: values are kept, not binarised) *)
+Example C15_as_called_nonvacuous :
+  let W := of_rows 0 [[0;3;1;0;0]; [3;0;1;0;0]; [1;1;0;(1#2);0]; [0;0;(1#2);0;1]; [0;0;0;1;0]]%list in
+  option_map (fun x => (to_rows 5 5 (fst (fst x)), snd (fst x), snd x)) (kcore_bu_py 5 W 2 true) =
+    Some ([[0;3;1;0;0]; [3;0;1;0;0]; [1;1;0;0;0]; [0;0;0;0;0]; [0;0;0;0;0]], 3%nat,
+          Some ([[4%nat]; [3%nat]], [[1%nat]; [2%nat]]))%list /\
+  option_map (fun x => (snd (fst x), snd x)) (kcore_bu_py 5 W 2 false) = Some (3%nat, None) /\
+  violators c_bu 5 W 2 (alive []) = [4%nat]%list /\ violators c_bu 5 W 2 (alive [[4%nat]]%list) = [3%nat]%list /\
+  violators c_bu 5 W 2 (alive [[4%nat]; [3%nat]]%list) = []%list.
+Proof. vm_compute. repeat split; reflexivity. Qed.
+
+Example C15_nested_nonvacuous :
+  let W := of_rows 0 [[0;1;1;0;0]; [1;0;1;0;0]; [1;1;0;1;0]; [0;0;1;0;1]; [0;0;0;1;0]]%list in
+  exists r r', kcore_bu 5 W 1 = Some r /\ kcore_bu 5 W 2 = Some r' /\
+    kn_of 5 (pr_deg r) = 5%nat /\ kn_of 5 (pr_deg r') = 3%nat /\
+    map (core r') (seq 0 5) = [true; true; true; false; false]%list.
+Proof. eexists. eexists. split; [vm_compute; reflexivity|]. split; [vm_compute; reflexivity|]. vm_compute. repeat split; reflexivity. Qed.
+
+Example C15_kcoreness_bu_nonvacuous :
+  let W := of_rows 0 [[0;1;1;0;0]; [1;0;1;0;0]; [1;1;0;1;0]; [0;0;1;0;1]; [0;0;0;1;0]]%list in
+  option_map (fun p => (to_list 5 (fst p), snd p)) (kcoreness_centrality_bu_py 5 W) =
+    Some ([2;2;2;1;1], [5;5;3;0;0])%nat%list.
+Proof. vm_compute. reflexivity. Qed.
+
+(* reciprocal pair 0<->1 and one-way arcs 1->2, 2->0: the hypothesis of C15_kcoreness_bu_symmetrises holds and the
+   result is that of the (undirected) triangle *)
+Example C15_symmetrises_nonvacuous :
+  let W := of_rows 0 [[0;1;0]; [1;0;1]; [1;0;0]]%list in
+  (1 < W 0%nat 1%nat + W 1%nat 0%nat) /\
+  option_map (fun p => (to_list 3 (fst p), snd p)) (kcoreness_centrality_bu 3 W) = Some ([2;2;2], [3;3;3])%nat%list.
+Proof. split; vm_compute; reflexivity. Qed.
 
 Print Assumptions C15_peel_terminates.
 Print Assumptions C15_core_is_feasible.
@@ -167,3 +330,23 @@ Print Assumptions C15_coreness_is_max_k_bu.
 Print Assumptions C15_coreness_bu_complete.
 Print Assumptions C15_coreness_is_max_k_bd.
 Print Assumptions C15_coreness_bd_truncated_refuted.
+Print Assumptions C15_peel_flag.
+Print Assumptions C15_kcoreness_default_path.
+Print Assumptions C15_violators_unfold.
+Print Assumptions C15_rounds_spec_unfold.
+Print Assumptions C15_peel_round_is_violators.
+Print Assumptions C15_nested_spec_unfold.
+Print Assumptions C15_kcore_bu_nested.
+Print Assumptions C15_kcore_bd_nested.
+Print Assumptions C15_score_wu_nested.
+Print Assumptions C15_peel_once_spec_unfold.
+Print Assumptions C15_kcore_bu_peel.
+Print Assumptions C15_kcore_bd_peel.
+Print Assumptions C15_score_wu_peel.
+Print Assumptions C15_kcore_bu_as_called.
+Print Assumptions C15_kcore_bd_as_called.
+Print Assumptions C15_score_wu_as_called.
+Print Assumptions C15_coreness_full_unfold.
+Print Assumptions C15_kcoreness_bu_full.
+Print Assumptions C15_kcoreness_bu_symmetrises.
+Print Assumptions C15_kcoreness_bu_single_arc_refuted.
